@@ -966,3 +966,74 @@ func ruleC11ReaderCopiesOnlyToCaller(c *Ctx) {
 		c.bad("secrets.Reader.Read/callback", u.pos(f.Pos()), "no WithBytes callback found in Reader.Read")
 	}
 }
+
+// ---------------------------------------------------------------------------------------------
+// C05.reload-result-used
+
+// ruleC05ReloadResultUsed: keyCache.load returns the key the caller has to go on with — the reloaded key when the
+// loader returned a different one (the cached key was revoked and replaced), the refreshed cached key otherwise. A
+// caller that ignores the result and carries on with the key it looked up before keeps using the revoked key for the
+// operation that discovered the revocation.
+func ruleC05ReloadResultUsed(c *Ctx) {
+	u := c.U1
+	c.rule("C05.reload-result-used", "in the methods of keyCache every call of load(meta, loader) has its key result flow into a value the method returns (directly, through tracked(), or through a phi): the reloaded key is never discarded in favour of the key read before the reload", 2)
+	ld := u.Method(pkgApp, "keyCache", "load")
+	if ld == nil {
+		c.unresolved("keyCache.load", "method")
+		return
+	}
+	n := 0
+	for _, f := range u.RepoFuncs {
+		if f.Signature.Recv() == nil || !typeIsNamed(f.Signature.Recv().Type(), pkgApp, "keyCache") || f.Blocks == nil || f == ld {
+			continue
+		}
+		allInstrs(f, func(i ssa.Instruction) {
+			if staticCallee(i) != ld {
+				return
+			}
+			n++
+			c.CallSites++
+			c.FuncsAnalysed[shortName(f)] = true
+			var key ssa.Value
+			for _, pr := range resultsOfType(i, isCachedKeyPtr) {
+				key = pr[0]
+			}
+			used := false
+			if key != nil {
+				seen := map[ssa.Value]bool{}
+				var flows func(v ssa.Value, depth int)
+				flows = func(v ssa.Value, depth int) {
+					if seen[v] || depth > 6 || v.Referrers() == nil {
+						return
+					}
+					seen[v] = true
+					for _, r := range *v.Referrers() {
+						switch x := r.(type) {
+						case *ssa.Return:
+							used = true
+						case *ssa.Phi:
+							flows(x, depth+1)
+						case *ssa.Call:
+							if g := staticCallee(x); g != nil && (g.Name() == "tracked" || g.Name() == "increment") {
+								flows(x, depth+1)
+							}
+						case *ssa.Store:
+							if a, isA := x.Addr.(*ssa.Alloc); isA && x.Val == v {
+								for _, r2 := range *a.Referrers() {
+									if l2, isL := r2.(*ssa.UnOp); isL && l2.Op == token.MUL {
+										flows(l2, depth+1)
+									}
+								}
+							}
+						}
+					}
+				}
+				flows(key, 0)
+			}
+			c.check(used, trimPkgDirs(shortName(f))+"/load-result", u.ipos(i), "the reloaded key is what the method goes on with", "the key returned by load() is discarded: after a reload that replaced a revoked (or superseded) key the method still hands out the key it had looked up before — the operation that detects the revocation is itself carried out under the revoked key")
+		})
+	}
+	if n == 0 {
+		c.bad("keyCache/load-calls", "", "no call of keyCache.load found")
+	}
+}
